@@ -9,6 +9,7 @@ mod props_partition;
 mod props_query;
 mod props_rules;
 mod props_stack;
+mod props_total;
 mod space;
 
 use common::Tier;
@@ -33,6 +34,8 @@ fn replay(prop: &str, file: &str) -> i32 {
             "family" => props_algebra::replay_family(&case),
             "lang" => props_lang::replay_lang(&case),
             "rules" => props_rules::replay_rules(&case),
+            "total" => props_total::replay_total(&case),
+            "spans" => props_total::replay_spans(&case),
             "walk" => props_fs::replay_walk(&case, prop),
             "depthwalk" => props_links::replay_depthwalk(&case),
             "faultwalk" => props_links::replay_faultwalk(&case),
@@ -139,6 +142,9 @@ fn main() {
         "C20-worker" => props_links::c20_worker(tier),
         "C13" => props_stack::c13_c16(tier, "C13"),
         "C16" => props_stack::c13_c16(tier, "C16"),
+        "C05" => props_total::c05(tier),
+        "C05-case" => props_total::c05_case_worker(),
+        "C17" => props_total::c17(tier),
         "C06" => props_rules::c06(tier),
         "C07" => props_algebra::c07(tier),
         "C08" => props_partition::c08(tier),
